@@ -689,6 +689,14 @@ func (e *Exec) callByContract(ct *Contract, callee *ssa.Function, args []Val, si
 		e.havocHeaps(mods)
 		e.havocPtrArgs(args, mods)
 	}
+	// ghost variables the callee changes through its own callees take arbitrary new values (constrained by its ensures)
+	for _, g := range ct.Havocs {
+		if gv := e.P.Ghosts[g]; gv != nil {
+			hn := "GH.u." + g
+			e.heap0(hn, gv.Sort)
+			e.st.heaps[hn] = e.vc.Fresh(hn, gv.Sort)
+		}
+	}
 	// 3. results
 	vals := make([]Val, sig.Results().Len())
 	post := e.callEnv(ct, callee, args, sig, e.st, pre)
